@@ -68,6 +68,7 @@ class H:
         self.notes = []
         self.ufun_defaults = {}
         self.ufun_count = {}
+        self.pin = {}
         self.events = []  # free-form trace of stub calls (for evidence samples)
 
     # ---------------------------------------------------------------- mode helpers
@@ -100,6 +101,15 @@ class H:
         """Input variable in the (open if strict) box (lo, hi).  `sample`: narrower interval for
         random plain-float validation points (where float64 is well conditioned); the solver's
         claim is for the whole box."""
+        if name in self.pin:
+            # semi-concrete case: this input is fixed (helps the solver FIND models of broken
+            # code; the fully symbolic case carries the for-all claim)
+            v = float(self.pin[name])
+            self.values.setdefault(name, v)
+            self.inputs.append((name, None, lo, hi))
+            if self.mode == "conc":
+                return v
+            return Sym(z3.RealVal(core.lift_float(v)))
         if self.mode == "sym":
             t = z3.Real(name)
             e = core.cur()
@@ -388,6 +398,8 @@ def _run_mode(hdef, case, mode, values=None, seed=0, use_defaults=True):
     """Run the harness once in conc / fold mode.  Returns (h, outcome)."""
     h = H(mode, values=dict(values or {}), seed=seed)
     h.use_defaults = use_defaults
+    h.pin = dict(case.get("_pin", {}))
+    case = {k: v for k, v in case.items() if not k.startswith("_")}
     outcome = None
     if mode == "fold":
         e = Engine(timeout_ms=5000)
@@ -481,9 +493,10 @@ def run_job(hdef, case, tier="quick", seed=0, replay_budget=6):
 
     def body():
         h = H("sym", seed=seed)
+        h.pin = dict(case.get("_pin", {}))
         hs.append(h)
         try:
-            return hdef.fn(h, **case)
+            return hdef.fn(h, **{k: v for k, v in case.items() if not k.startswith("_")})
         finally:
             h.undo_patches()
 
